@@ -24,9 +24,12 @@ def assumptions(variant, wform="blind", sform="pinned"):
             "code between two wrapped calls of one thread is atomic (controlled-scheduler granularity: every "
             "pthread/libc call is a scheduling point, plain memory accesses are not): the check-then-write of "
             "_cancel_pending_threads and the unprotected re-read in _update_connect_state are atomic here",
-            "pthread_cancel(thread_sig) takes effect at once (in reality at the next cancellation point); what happens "
-            "after exit() was called (atexit/stdio flush racing with other threads) and the watchdog on the freed "
-            "t[] are runtime behaviours outside model and harness",
+            "pthread_cancel(thread_sig) is deferred in model and harness: the thread runs on and ends at a cancellation "
+            "point (harness: sigwait only; model: any point of a handler, at the latest sigwait, so every C library is "
+            "covered); the shutdown form `stopwdog` also stands for the join of the signals thread before dsh() returns "
+            "(repair of F20-LATEINT): a tree that stops the watchdog but does not join the signals thread is rejected by "
+            "the acceptor at `D return`; what happens after exit() was called (atexit/stdio flush racing with other "
+            "threads) is a runtime behaviour outside model and harness",
             "fanout >= 1, -k off, connect/command timeouts off (C07 owns the watchdog), pthread_create and rcmd_create "
             "succeed, the clock is past INTR_TIME at start, every command ends",
             "wait-for-room construct of the checked tree, detected by behaviour: %s (the C20 theorems hold for both)" % variant]
@@ -154,7 +157,7 @@ def run(ctx, PROPS, LEVEL):
                    "helper's log.  Distinct = distinct projected event trace; non-trivial = the signals thread handled at "
                    "least one signal"}
     dist = {"plans": {}, "episodes": {}, "status": {}, "rejects": 0, "out_of_domain": 0, "dfs": [], "positions": [],
-            "yield": {}, "N": {}, "batch": {"0": 0, "1": 0}}
+            "yield": {}, "N": {}, "batch": {"0": 0, "1": 0}, "shutdown_tail": {}}
     cov["distribution"] = dist
     variant, wform, sform = None, "blind", "pinned"
     if not (exe_san and exe):
@@ -234,6 +237,11 @@ def run(ctx, PROPS, LEVEL):
                                   "exit" if e["exit"] is not None else "cancel" if e["cancel"] else
                                   "done" if e["completed"] else "open")
                 dist["episodes"][k] = dist["episodes"].get(k, 0) + 1
+            if b is not None and "ev Z die" in b:
+                # shutdown tail: how the signals thread ended - in sigwait at once, or after running a handler to its end
+                k = b.index("ev Z die")
+                how = "at_once_in_sigwait" if b[k - 1] == "ev D cancelS" else "after_handler_ran_on"
+                dist["shutdown_tail"][how] = dist["shutdown_tail"].get(how, 0) + 1
             if b is not None and facts["episodes"]:
                 distinct.add(sched.trace_key(b))
                 if len(cov["samples"]) < 4 and len(b) < 260 and len(facts["episodes"]) >= 2 and \
@@ -290,7 +298,7 @@ def run(ctx, PROPS, LEVEL):
             if len(buf) >= 1200:
                 consume(buf[:], "dfs")
                 del buf[:]
-        st = explore_sig(exe, ctx.scratch, basec, plan, on, max_runs=3000 if ctx.quick() else 250000, stop=enough)
+        st = explore_sig(exe, ctx.scratch, basec, plan, on, max_runs=2500 if ctx.quick() else 250000, stop=enough)
         consume(buf, "dfs")
         st.update({"config": name, "plan": "-".join(SGN[x] for x in plan), "batch": batch})
         dist["dfs"].append(st)
@@ -323,7 +331,7 @@ def run(ctx, PROPS, LEVEL):
                 elif not ctx.quick() and n <= 2 and len(sigs) == 2:
                     dqs = [[d] for d in range(1, 31)]
                 elif ctx.quick():
-                    dqs = [[d] + [d + 9] * (len(sigs) - 2) for d in (1, 4, 9, 15)]
+                    dqs = [[d] + [d + 9] * (len(sigs) - 2) for d in (1, 4, 12)]
                 else:
                     dqs = [[d] + [d + 9] * (len(sigs) - 2) for d in (1, 2, 3, 5, 8, 11, 14, 18, 25)]
                 for p in range(L + 1):
